@@ -71,7 +71,9 @@ def main():
     if os.path.exists(dic):
         cmd.append("-dict=" + dic)
     cmd.append(corpus)
-    env = dict(os.environ, VERIF_FUZZ_STATS=stats)
+    scratch = os.path.join(wd, "scratch")
+    env = dict(os.environ, VERIF_FUZZ_STATS=stats, VERIF_C18_SCRATCH=scratch)
+    os.environ["VERIF_C18_SCRATCH"] = scratch  # minimisation / verification children too
     before = set(glob.glob(prefix + "*"))
     p = subprocess.Popen(cmd, env=env, stdout=subprocess.PIPE, stderr=subprocess.STDOUT, cwd=wd)
     raw_out, _ = p.communicate()
@@ -147,6 +149,7 @@ def main():
         print("fuzz target exited with status %s and left no artefact" % p.returncode)
         return 3
     json.dump(part, open(a.part, "w"))
+    shutil.rmtree(scratch, ignore_errors=True)
     return 1 if viol else 0
 
 
